@@ -266,7 +266,17 @@ pub fn run(ctx: &mut Ctx) {
                             if do_container {
                                 std::fs::write(file, &altered).unwrap();
                                 let cv = container_check(&entry);
-                                if a.must_fail && cv == "true" {
+                                // A CRC-consistent change of the uuid in the header of a pack that lives
+                                // in its own file changes the pack's *identity*: the container no longer
+                                // finds the pack it lists (C11: identity is the uuid) and its check covers
+                                // the packs that are present.  Not a C04 requirement at container level
+                                // (the per-pack check above still has to fail).
+                                let rel0 = a.patches[0].0 - p.origin;
+                                let identity_change = a.family == "crcfix-header" && (10..26).contains(&rel0) && *file != entry;
+                                if identity_change {
+                                    ctx.count("container_level_identity_changes_skipped");
+                                }
+                                if a.must_fail && cv == "true" && !identity_change {
                                     ctx.fail(my, &format!("undetected-container-{}-{}", a.family, p.kind as char), &format!("Container::check() = true after altering {} in pack kind {} of {} ({})", patch_str, p.kind as char, file.file_name().unwrap().to_string_lossy(), mode.name()));
                                 }
                                 if cv.starts_with("panic") {
